@@ -265,6 +265,12 @@ func runC12(r *rt.Run) {
 	run(cr, cpt, false)
 	run(ch, chp, false)
 	run(cp4, cq4, false)
+	// triangles with long slanted edges x shapes touching the hypotenuse (translation / Move / reflection / direction)
+	_, sp := slantPairs()
+	r.Bounds["slanted_triangle_pairs"] = len(sp)
+	r.ParFor(len(sp), func(i int, w *rt.Worker) {
+		pair(mkC12(sp[i][0]), mkC12(sp[i][1]), w)
+	})
 	r.Sample(map[string]any{"base": pairCase("contains", polys[5].E, lines[40].E, ident, ""), "transform": c12Both[9].name})
 	r.Sample(map[string]any{"base": pairCase("contains", polys[5].E, lines[40].E, ident, ""), "reencoding_of_A": cp[5].enc[1].name})
 }
